@@ -217,7 +217,7 @@ fn ev_strategy() -> impl Strategy<Value = Ev> {
 }
 
 pub fn run(ctx: &Ctx) {
-    ctx.set_rule("breadth-first exploration, through the real update() (hook H2), of the UI states reachable from start-up for tables of 0, 1, 2 and 3 rows over the alphabet {j,k,g,q,a,c,v,.,f,l,-,/,Esc,Enter,Backspace,Up,Down,Home,PageUp,x,J,PageDown,Tab,Tick(120),Tick(80),Error}; states abstracted to (quit, search mode, query length capped at 2, sort key, order, width, selected row); every edge is executed by replaying its shortest path from a fresh application state. Plus every printable ASCII character, six non-ASCII characters and every special key in each of ten contexts; search patterns of 1 to 300 one- to four-byte characters typed and erased; and proptest-random sequences up to 300 events (any printable char, any tick width) on tables of 0..=3, 10 and 1000 rows. Oracle: no panic; selected row = 0 on an empty table, < rows otherwise; (quit, search mode, sort key, order) and the query equal a reference automaton written from docs/output.md and the table's help line. Non-trivial = a distinct (rows, model state, event) edge.");
+    ctx.set_rule("breadth-first exploration, through the real update() (hook H2), of the UI states reachable from start-up for tables of 0, 1, 2 and 3 rows over the alphabet {j,k,g,q,a,c,v,.,f,l,-,/,Esc,Enter,Backspace,Up,Down,Home,PageUp,x,J,PageDown,Tab,Tick(120),Tick(80),Error}; states abstracted to (quit, search mode, query length capped at 2, sort key, order, width, selected row); every edge is executed by replaying its shortest path from a fresh application state. Plus every printable ASCII character, six non-ASCII characters and every special key in each of sixteen contexts (incl. terminal widths 0, 1, 3, 38, 39 and 65535); search patterns of 1 to 300 one- to four-byte characters typed and erased; and proptest-random sequences up to 300 events (any printable char, any tick width) on tables of 0..=3, 10 and 1000 rows. Oracle: no panic; selected row = 0 on an empty table, < rows otherwise; (quit, search mode, sort key, order) and the query equal a reference automaton written from docs/output.md and the table's help line. Non-trivial = a distinct (rows, model state, event) edge.");
     ctx.assume("the row count is fixed during a sequence (rows are rebuilt by the renderer, which is outside update())");
     let pool = Pool::new(16);
     for rows in 0..=3usize {
@@ -233,7 +233,7 @@ pub fn run(ctx: &Ctx) {
         keys.extend(["\u{e9}", "\u{df}", "\u{65e5}", "\u{1f600}", "\u{301}", "\u{a0}"].iter().map(|s| s.to_string()));
         keys.extend(["Esc", "Enter", "Backspace", "Up", "Down", "Home", "PageUp", "PageDown", "End", "Tab", "Left", "Right", "Delete"].iter().map(|s| s.to_string()));
         let k = |s: &str| Ev::Key(s.to_string());
-        let contexts: Vec<Vec<Ev>> = vec![vec![], vec![k("j")], vec![k("k")], vec![k("/")], vec![k("/"), k("a")], vec![k("/"), k("\u{e9}")], vec![k("/"), k("a"), k("Enter")], vec![k("/"), k("Backspace")], vec![k("-"), k("a")], vec![Ev::Tick(40)]];
+        let contexts: Vec<Vec<Ev>> = vec![vec![], vec![k("j")], vec![k("k")], vec![k("/")], vec![k("/"), k("a")], vec![k("/"), k("\u{e9}")], vec![k("/"), k("a"), k("Enter")], vec![k("/"), k("Backspace")], vec![k("-"), k("a")], vec![Ev::Tick(40)], vec![Ev::Tick(0)], vec![Ev::Tick(1), k("/")], vec![Ev::Tick(38), k("/"), k("a")], vec![Ev::Tick(39), k("/")], vec![k("/"), Ev::Tick(3)], vec![Ev::Tick(65535), k("/")]];
         let mut cases: Vec<(usize, Vec<Ev>)> = vec![];
         for rows in 0..=3usize {
             for c in &contexts {
@@ -255,7 +255,7 @@ pub fn run(ctx: &Ctx) {
                 ctx.judge(Err(f));
             }
         }
-        ctx.class_n("every character / special key in each of 10 contexts x 0..=3 rows", cases.len() as u64);
+        ctx.class_n("every character / special key in each of 16 contexts x 0..=3 rows", cases.len() as u64);
     }
     // long patterns typed in search mode: 1-, 2-, 3- and 4-byte characters in every mix, then erased again
     {
